@@ -127,6 +127,7 @@ type Backend struct {
 	FailSystemOn           map[string]bool          // hosts (IP) whose system-table queries are answered with SERVER_ERROR (no control connection there)
 	ScriptBeforeUnprepared bool                     // EXECUTEs of unknown ids whose token has a script get the scripted outcome, not UNPREPARED
 	SlowStartupHosts       map[string]time.Duration // per host (IP): STARTUPs on that host are answered after this delay
+	SlowStartupVersion     byte                     // if non-zero only STARTUPs of this protocol version are slowed down per host
 	StartupDelay           time.Duration            // every STARTUP is answered after this delay (widens the window in which a session is being created)
 	PrepareErr             map[string][]Outcome     // per prepared-id (hex) outcomes of PREPARE attempts
 	prepAttempts           map[string]int
@@ -803,7 +804,7 @@ func (c *Conn) handle(hdr, body, raw []byte) bool {
 		}
 		c.logRec(rec)
 		sdelay := be.StartupDelay
-		if d := be.SlowStartupHosts[c.host.IP]; d > sdelay {
+		if d := be.SlowStartupHosts[c.host.IP]; d > sdelay && (be.SlowStartupVersion == 0 || be.SlowStartupVersion == byte(version)) {
 			sdelay = d
 		}
 		be.mu.Unlock()
